@@ -62,6 +62,15 @@ def strategy(tp):
         "stretch": st.one_of(st.none(), st.none(), st.tuples(st.sampled_from(["host", "path", "query", "header-value", "header-name", "method", "userinfo"]),
                                                              st.sampled_from([255, 256, 1023, 1024, 1025, 4095, 4096, 8191, 8192, 8193, 12000, 16384, 20000])).map(list)),
     })
+    # a syntactically clean GET whose only adversarial part is its Range header (the range-packing code runs only when the
+    # proxy itself answers from a whole 200 response or a cached object)
+    probe = st.fixed_dictionaries({
+        "method": st.just("GET"), "form": st.just("absolute"), "version": st.sampled_from(["HTTP/1.1", "HTTP/1.0"]),
+        "headers": st.lists(st.sampled_from(["Accept: */*", "If-Range: \"v1\"", "Connection: keep-alive"]), min_size=0, max_size=2),
+        "body": st.just("none"), "body_len": st.just(0), "mut": st.just([]),
+        "range": st.tuples(st.integers(0, 30), st.lists(st.tuples(st.integers(-2, 2), st.integers(0, 12)), min_size=2, max_size=5)).map(_chain),
+        "stretch": st.none(),
+    })
     resp = st.fixed_dictionaries({
         "status": st.sampled_from([200, 200, 200, 100, 101, 204, 206, 301, 304, 401, 407, 404, 416, 500, 999, 99, 600]),
         "version": st.sampled_from(["HTTP/1.1", "HTTP/1.1", "HTTP/1.0", "ICY", "HTTP/2.0"]),
@@ -75,7 +84,7 @@ def strategy(tp):
     return st.fixed_dictionaries({
         # first make the first URL a cached object (clean 200), so that the adversarial request is answered from the store
         "precache": st.sampled_from([False, False, True]),
-        "requests": st.lists(req, min_size=1, max_size=4),
+        "requests": st.lists(st.one_of(req, req, req, probe), min_size=1, max_size=4),
         "response": resp,
         "client_segments": st.lists(st.integers(1, 2000), min_size=0, max_size=5),
         "client_half_close": st.booleans(),
